@@ -169,6 +169,14 @@ def process_top(job):
                     e['kind'] = 'bounded'
                     nb += e['n']
             out['bounded'].append({'entry': key, 'note': out['note'], 'obligations': nb, 'all_proved': all(e['proved'] == e['n'] for e in out['names'].values())})
+        elif getattr(top, 'extra', {}).get('bounded'):
+            # a bounded stand-in (`bounded='<the bound>'` on the lemma): its obligations are reported under `bounded`
+            # and never counted as discharged; a refuted one still alarms
+            for name, e in out['names'].items():
+                if not e['expect_sat']:
+                    e['kind'] = 'bounded'
+            out['bounded'].append({'entry': key, 'bound': top.extra['bounded'], 'obligations': sum(e['n'] for e in out['names'].values() if not e['expect_sat']),
+                                   'undecided': sum(e['unknown'] for e in out['names'].values() if not e['expect_sat'])})
     except Exception:
         out['error'] = traceback.format_exc()
     out['wall_s'] = time.time() - t0
